@@ -259,6 +259,7 @@ def discover_fields(h):
     ae.FIELD_ALIASES.clear()
     I, S = h.I, h.S
     actual = dict(CANON)
+    h.aux = {}
     try:
         a, b = I.call(S["Vertex"], [], {}), I.call(S["Vertex"], [], {})
         e = I.call(S["DirectedEdge"], [a, b], {})
@@ -275,6 +276,15 @@ def discover_fields(h):
             back = [k for k, v in laws[0][1].fields.items() if v is u]
             if len(back) == 1:
                 actual["applies_to"] = back[0]
+        # auxiliary state: further mutable containers an object keeps next to the role fields (a private index, a second cache ...).
+        # Pre-states that assign the role fields directly would leave it inconsistent, so the engines then build their pre-states
+        # through the public API only (rules/struct.py) and say `bounded`.
+        roles = set(actual.values())
+        h.aux = {}
+        for cname, o in (("Vertex", a), ("Link", e), ("Universe", u)):
+            extra = sorted(k for k, v in o.fields.items() if isinstance(v, (Seq, DictV, SetV)) and k not in roles and k.startswith("_"))
+            if extra:
+                h.aux[cname] = extra
         try:
             helpers = h.w.load("edgegraph.traversal.helpers")
             S["Vertex"].dict["NEIGHBOR_CACHING"] = True
@@ -283,6 +293,10 @@ def discover_fields(h):
             memo = [k for k, v in a.fields.items() if isinstance(v, DictV) and v.pairs and k not in before]
             if len(memo) == 1:
                 actual["memo"] = memo[0]
+            for cname in list(h.aux):
+                h.aux[cname] = [k for k in h.aux[cname] if k != actual["memo"]]
+                if not h.aux[cname]:
+                    del h.aux[cname]
         except (Raised, Unknown, KeyError, SourceError):
             pass
     except (Raised, Unknown, KeyError):
